@@ -21,6 +21,7 @@ from typing import Tuple, Dict, List
 
 from deep.api.tracepoint import StackFrame, Variable
 from deep.utils import time_ns
+from .variable_processor import type_name
 from .variable_set_processor import VariableCacheProvider, VariableSetProcessor, VariableProcessorConfig
 
 
@@ -144,8 +145,10 @@ class FrameCollector:
             try:
                 class_name = _self.__class__.__name__
             except BaseException:
-                # the object does not let us read its attributes: its type still tells us the class
-                class_name = type(_self).__name__
+                class_name = None
+            if type(class_name) is not str:
+                # the object does not let us read its attributes (or lies): its type still tells us the class
+                class_name = type_name(type(_self))
 
         var_ids = []
         # only process vars if we are under the time limit
